@@ -163,7 +163,9 @@ def main(run):
     doc = build_doc(s, exprs)
     work = os.path.join(build.BUILD, "work", "C13-%d" % run.seed)
     os.makedirs(work, exist_ok=True)
-    renderings = {"sdl": ("graphql", render_sdl(s)), "sdl-builtins-declared": ("graphql", render_sdl(s, declare_builtins=True)), "json": ("json", render_json(s)), "json-data": ("json", render_json(s, wrapped=True, builtins="all"))}
+    renderings = {"sdl": ("graphql", render_sdl(s)), "sdl-builtins-declared": ("graphql", render_sdl(s, declare_builtins=True)),
+                  # every object type split: a part of its fields arrives in `extend type` blocks (at random places of the file)
+                  "sdl-extended": ("graphql", render_sdl(s, rng=run.sub_rng("extend"), extend="all")), "json": ("json", render_json(s)), "json-data": ("json", render_json(s, wrapped=True, builtins="all"))}
     doc_text = render_document(doc)
     reqs = []
     for name, (ext, text) in renderings.items():
